@@ -18,6 +18,9 @@ type dataBackupHelper struct {
 }
 
 func newDataBackupHelper(dataFolder string, keep int) *dataBackupHelper {
+	// "<dir>/raft/" names the same folder as "<dir>/raft": without this
+	// Dir() returns the folder itself and nothing is ever backed up.
+	dataFolder = filepath.Clean(dataFolder)
 	return &dataBackupHelper{
 		baseDir:    filepath.Dir(dataFolder),
 		folderName: filepath.Base(dataFolder),
